@@ -236,7 +236,7 @@ def t2(chk, bib, maxlen, objs, pool):
 # ---------------------------------------------------------------------------
 # T3
 # ---------------------------------------------------------------------------
-def big_universe(model, rnd):
+def big_universe(model, rnd, spell=None):
     E, F, S = model.Entry, model.Field, model.String
     U, rec = {}, {}
 
@@ -245,7 +245,7 @@ def big_universe(model, rnd):
         rec[name] = {"id": name, "kind": kind, "key": key, "eqc": eqc}
     # the three keys are spelled differently from history to history: a key is any string (set through the API), also one
     # that looks like a format field, is empty, or differs from another only under case folding
-    spell = dict(zip(("k1", "k2", "k3"), rnd.sample(["k1", "k2", "k3", "doe{etal}2020", "a{0}b", "x{}", "", "%d %s", "ß", "SS", "ss", "k\n1", "{"], 3)))
+    spell = spell or dict(zip(("k1", "k2", "k3"), rnd.sample(["k1", "k2", "k3", "doe{etal}2020", "a{0}b", "x{}", "", "%d %s", "ß", "SS", "ss", "k\n1", "{"], 3)))
     for k in ("k1", "k2", "k3"):
         for variant in ("a", "b"):
             put(f"E{k}{variant}", E("article", spell[k], [F("t", variant)] if variant == "a" else []), "entry", spell[k], f"E{k}{variant}")
@@ -262,12 +262,14 @@ def big_universe(model, rnd):
     put("F1", model.ParsingFailedBlock(error=Exception("x"), raw="@bad{"), "failed", "", "F1")
     ent = E("article", "k9", [F("a", "1"), F("a", "2")])
     put("DF", model.DuplicateFieldKeyBlock({"a"}, ent), "dupfield", "", "DF")
+    rec["<spelling of the keys>"] = spell
     return U, rec
 
 
 def history(bib, rnd, depth, cid):
     model = bib.model
     U, rec = big_universe(model, rnd)
+    spell = rec.pop("<spelling of the keys>")
     names = {id(v): k for k, v in U.items()}
     lib = bib.Library()
     # a bystander: another library (holding blocks with the same keys) that nobody touches during the history
@@ -318,7 +320,7 @@ def history(bib, rnd, depth, cid):
         if views(bystander, by_names, model) != by_views:
             ev["v"] = dict(ev["v"], blocks=ev["v"]["blocks"] + ["<another library changed: %s>" % views(bystander, by_names, model)["blocks"]])
         evs.append(ev)
-    return {"id": cid, "ev": evs}
+    return {"id": cid, "ev": evs, "spell": spell}
 
 
 def binding_selftest(chk, cases):
@@ -357,13 +359,13 @@ def t3(chk, bib, ncases, depths):
             c = byid[n["id"]]
             sig = {"id": {"AddRaiseAfterInsert": "C08-add-raise-after-insert", "RemovePartial": "C08-remove-partial"}[n["deviation"]]}
             ev = c["ev"][n["at"] - 1]
-            chk.mismatch(n["clause"], {"kind": "history", "ev": c["ev"][:n["at"]]}, {"out": ev["out"], "v": ev.get("v", "<not observed>")},
+            chk.mismatch(n["clause"], {"kind": "history", "ev": c["ev"][:n["at"]], "spell": c.get("spell")}, {"out": ev["out"], "v": ev.get("v", "<not observed>")},
                          "ideal action of Library.tla (unchanged state on ValueError)", signature=sig,
                          spec={"module": "Trace_Library", "deviation": n["deviation"]}, kind="library_history")
     for rj in verdict.rejects:
         c = byid[rj["reject"]]
         ev = c["ev"][rj["at"] - 1]
-        chk.mismatch(rj["clause"], {"kind": "history", "ev": c["ev"][:rj["at"]]}, {"out": ev["out"], "v": ev.get("v", "<not observed>")},
+        chk.mismatch(rj["clause"], {"kind": "history", "ev": c["ev"][:rj["at"]], "spell": c.get("spell")}, {"out": ev["out"], "v": ev.get("v", "<not observed>")},
                      rj["expected"], spec={"module": "Trace_Library", "operator": "Next"}, kind="library_history")
     if cases:
         c = cases[0]
@@ -450,7 +452,8 @@ def replay(rec, chk):
         obs = {"out": out, "views": views(lib, names, model)}
         return obs, rec["expected"], obs == rec["expected"]
     if inp["kind"] == "history":
-        U, recs = big_universe(model, random.Random(0))
+        U, recs = big_universe(model, random.Random(0), inp.get("spell"))
+        recs.pop("<spelling of the keys>", None)
         names = {id(v): k for k, v in U.items()}
         lib = bib.Library()
         out = None
